@@ -680,7 +680,11 @@ class CellsImpl(*_cells_impl_base):
             self.altfunc = CellsBoundFunction(self)
 
     def on_namespace_change(self):
-        self.clear_all_values(clear_input=False)
+        if self.is_cached:
+            self.clear_all_values(clear_input=False)
+        else:
+            # No values are stored: the dependants hang on the trace nodes
+            self.model.clear_obj(self)
 
     # ----------------------------------------------------------------------
     # repr methods
